@@ -428,6 +428,22 @@ class Inliner:
         t = blk['term']
         o = single_origin(trace_operand(tmp, t['args'][0], through_calls=set())) if t['args'][0]['k'] != 'const' else None
         fconst = t['args'][0] if t['args'][0]['k'] == 'const' and t['args'][0].get('fn') else (o.data if o is not None and not o.proj and o.kind == 'const' and isinstance(o.data, dict) and o.data.get('fn') else None)
+        if fconst is not None and '{constructor#' in (fconst['fn'].get('uid') or ''):
+            # the callable is a tuple-variant / tuple-struct constructor (`self.token(Token::Operator, span)`): the call
+            # builds that aggregate from the tuple's components
+            to = single_origin(trace_operand(tmp, t['args'][1], through_calls=set()))
+            if to is None or to.proj or to.kind != 'agg' or to.data[2].get('agg') != 'tuple' or t.get('target') is None:
+                return False
+            path = fconst['fn']['def'].rsplit('::', 1)
+            a = self.prog.f.adt_by_name.get(path[0])
+            names = [v['name'] for v in a['variants']] if a else []
+            if not a or path[1] not in names:
+                return False
+            blk['stmts'].append(_assign(t['dest'], {'k': 'agg', 'agg': 'adt', 'adt': path[0], 'variant': path[1], 'vi': names.index(path[1]),
+                                                    'is_enum': len(names) > 1, 'ops': list(to.data[2]['ops'])}, blk['span']))
+            blk['term'] = {'k': 'goto', 'target': t['target']}
+            j['inlined'].append('ctor:' + fconst['fn']['def'])
+            return True
         if fconst is not None and '{constructor#' not in (fconst['fn'].get('uid') or ''):
             # the callable is a fn item (`self.eat(Token::is_close_paren)`): a direct call with the tuple's components
             to = single_origin(trace_operand(tmp, t['args'][1], through_calls=set()))
